@@ -23,7 +23,7 @@ type fileCfg struct {
 	Path   string   `json:"path"`   // relative to repo
 	Points []string `json:"points"` // functions that get a scheduling point before every statement ("*" = all)
 	Fail   bool     `json:"fail"`   // insert MaybeFail after `…, err := f()` followed by `if err != nil`
-	MapOrder bool   `json:"maporder"`
+	MapLines []int  `json:"maplines"` // lines of `range` statements over maps (from the typed scan)
 }
 
 type config struct {
@@ -34,6 +34,7 @@ const (
 	pVsched   = "github.com/consensys/gnark/internal/verifh/vsched"
 	pVsync    = "github.com/consensys/gnark/internal/verifh/vsync"
 	pErrgroup = "github.com/consensys/gnark/internal/verifh/verrgroup"
+	pVchoice  = "github.com/consensys/gnark/internal/verifh/vchoice"
 )
 
 func main() {
@@ -81,6 +82,8 @@ type rewriter struct {
 	n         map[string]int
 	tmp       int
 	useVsched bool
+	useVchoice bool
+	mapLines  map[int]bool
 }
 
 func (r *rewriter) count(k string) { r.n[k]++ }
@@ -340,6 +343,28 @@ func (r *rewriter) stmt(s ast.Stmt, points bool) []ast.Stmt {
 	case *ast.RangeStmt:
 		x.X = r.expr(x.X)
 		r.block(x.Body, points)
+		if r.mapLines[r.fset.Position(x.Pos()).Line] {
+			if x.Tok != token.DEFINE {
+				panic("goinstr: map range with '=' not supported at " + r.site(x))
+			}
+			r.count("maprange")
+			r.useVchoice = true
+			r.tmp++
+			keyVar := ast.Expr(ast.NewIdent(fmt.Sprintf("__mk%d", r.tmp)))
+			if id, ok := x.Key.(*ast.Ident); ok && id.Name != "_" {
+				keyVar = id
+			}
+			var val ast.Expr = ast.NewIdent("_")
+			if x.Value != nil {
+				val = x.Value
+			}
+			okv := ast.NewIdent(fmt.Sprintf("__mok%d", r.tmp))
+			fetch := &ast.AssignStmt{Lhs: []ast.Expr{val, okv}, Tok: token.DEFINE, Rhs: []ast.Expr{&ast.IndexExpr{X: x.X, Index: keyVar}}}
+			skip := &ast.IfStmt{Cond: &ast.UnaryExpr{Op: token.NOT, X: okv}, Body: &ast.BlockStmt{List: []ast.Stmt{&ast.BranchStmt{Tok: token.CONTINUE}}}}
+			body := append([]ast.Stmt{fetch, skip}, x.Body.List...)
+			keys := &ast.CallExpr{Fun: sel("vchoice", "MapKeys"), Args: []ast.Expr{x.X, strLit(r.site(x))}}
+			return []ast.Stmt{&ast.RangeStmt{Key: ast.NewIdent("_"), Value: keyVar, Tok: token.DEFINE, X: keys, Body: &ast.BlockStmt{List: body}}}
+		}
 		if r.chans[lastName(x.X)] && x.Value == nil {
 			r.count("rangechan")
 			key := ast.Expr(ast.NewIdent("_"))
@@ -452,7 +477,10 @@ func instrument(path string, fc fileCfg) ([]byte, string, error) {
 	if err != nil {
 		return nil, "", err
 	}
-	r := &rewriter{fset: fset, cfg: fc, chans: map[string]bool{}, base: filepath.Base(path), n: map[string]int{}}
+	r := &rewriter{fset: fset, cfg: fc, chans: map[string]bool{}, base: filepath.Base(path), n: map[string]int{}, mapLines: map[int]bool{}}
+	for _, l := range fc.MapLines {
+		r.mapLines[l] = true
+	}
 	r.collectChans(f)
 	// drop comments attached inside rewritten bodies would be misplaced: keep only doc comments
 	f.Comments = nil
@@ -481,8 +509,15 @@ func instrument(path string, fc fileCfg) ([]byte, string, error) {
 			r.count("import-errgroup")
 		}
 	}
+	var extra []string
 	if r.useVsched {
-		spec := &ast.ImportSpec{Path: &ast.BasicLit{Kind: token.STRING, Value: strconv.Quote(pVsched)}}
+		extra = append(extra, pVsched)
+	}
+	if r.useVchoice {
+		extra = append(extra, pVchoice)
+	}
+	for _, ip := range extra {
+		spec := &ast.ImportSpec{Path: &ast.BasicLit{Kind: token.STRING, Value: strconv.Quote(ip)}}
 		added := false
 		for _, d := range f.Decls {
 			if gd, ok := d.(*ast.GenDecl); ok && gd.Tok == token.IMPORT {
